@@ -687,21 +687,21 @@ func deleteInPlace(s []*pb.AddrBookRecord_AddrEntry, addrs []ma.Multiaddr) []*pb
 		return s
 	}
 	survived := len(s)
-Outer:
-	for i, addr := range s {
+	for i := 0; i < survived; {
+		deleted := false
 		for _, del := range addrs {
-			if !bytes.Equal(del.Bytes(), addr.Addr) {
-				continue
+			if bytes.Equal(del.Bytes(), s[i].Addr) {
+				deleted = true
+				break
 			}
-			survived--
-			// if there are no survivors, bail out
-			if survived == 0 {
-				break Outer
-			}
-			s[i] = s[survived]
-			// we've already dealt with s[i], move to the next
-			continue Outer
 		}
+		if !deleted {
+			i++
+			continue
+		}
+		survived--
+		// the entry moved into slot i has not been examined yet, so stay at i
+		s[i] = s[survived]
 	}
 	return s[:survived]
 }
